@@ -242,6 +242,11 @@ func (db *DB) Checkpoint(ckptID uint64) (wait func() (recovery.CheckpointHandle,
 
 	return bg.Task2(func() (recovery.CheckpointHandle, error) {
 		if err := prevWAL.Save(); err != nil {
+			// The checkpoint does not exist. Keeping it listed would make a
+			// later retention update delete a WAL file that was never written.
+			db.mu.Lock()
+			db.checkpoints.Discard(ckptID)
+			db.mu.Unlock()
 			return recovery.CheckpointHandle{}, err
 		}
 		uri, err := db.checkpoints.Save(db.fs)
